@@ -148,7 +148,9 @@ fn fnv64(bs: &[u8]) -> u64 {
     h
 }
 
-/// histories: `H <id> <mode: file|dest|dir|dirlink|fmt>`, then `G <hex|NONE>`, `P <hex|->`, `D`, `R`
+/// histories: `H <id> <mode: file|dest|dir|dirlink|dir2|fmt>`, then `G <hex|NONE>`, `P <hex|->`, `D`, `R`;
+/// mode `dir2` (two grammar files in one walked tree, `sub/g.ebnf` and `sub/deep/h.ebnf`) also has `G2 <hex>` and `D2`,
+/// and its answer is `<id> <k> <res> <hash0> <touched0> <hash1> <touched1> <order in which read_dir lists the two>`
 fn fs_main(dir: &str) {
     colored::control::set_override(false);
     std::panic::set_hook(Box::new(|_| {}));
@@ -165,7 +167,49 @@ fn fs_main(dir: &str) {
         let p: Vec<&str> = line.split(' ').collect();
         let src = format!("{}/sub/g.ebnf", work);
         let dst = if mode == "dest" { format!("{}/out/g_out.rs", work) } else { format!("{}/sub/g.rs", work) };
+        let src2 = format!("{}/sub/deep/h.ebnf", work);
+        let dst2 = format!("{}/sub/deep/h.rs", work);
         match p[0] {
+            "G2" => std::fs::write(&src2, unhex(p[1]).unwrap()).unwrap(),
+            "D2" => {
+                let _ = std::fs::remove_file(&dst2);
+            }
+            "R" if mode == "dir2" => {
+                for d in [&dst, &dst2] {
+                    if let Ok(f) = std::fs::OpenOptions::new().write(true).open(d) {
+                        let _ = f.set_modified(old);
+                    }
+                }
+                // the order in which the operating system lists `g.ebnf` and `deep` (an environment parameter of the model)
+                let names: Vec<String> = std::fs::read_dir(format!("{}/sub", work)).unwrap()
+                    .map(|e| e.unwrap().file_name().to_string_lossy().to_string()).collect();
+                let pg = names.iter().position(|n| n == "g.ebnf");
+                let pd = names.iter().position(|n| n == "deep");
+                let ord = match (pg, pd) {
+                    (Some(a), Some(b)) if b < a => "10",
+                    _ => "01",
+                };
+                let r = catch_unwind(AssertUnwindSafe(|| {
+                    peginator_codegen::Compile::directory(&work).prefix(prefix.clone()).run()
+                }));
+                let res = match r {
+                    Ok(Ok(())) => "OK",
+                    Ok(Err(_)) => "ERR",
+                    Err(_) => "PANIC",
+                };
+                let mut cols = String::new();
+                for d in [&dst, &dst2] {
+                    let after = std::fs::read(d).ok();
+                    let touched = match std::fs::metadata(d).and_then(|m| m.modified()) {
+                        Ok(t) => t != old,
+                        Err(_) => false,
+                    };
+                    cols.push_str(&format!(" {} {}", after.as_ref().map(|b| format!("{:016x}", fnv64(b))).unwrap_or_else(|| "NONE".into()),
+                        if touched { 1 } else { 0 }));
+                }
+                writeln!(o, "{} {} {}{} {}", id, k, res, cols, ord).unwrap();
+                k += 1;
+            }
             "H" => {
                 id = p[1].to_string();
                 mode = p[2].to_string();
@@ -183,6 +227,9 @@ fn fs_main(dir: &str) {
                     std::fs::create_dir_all(format!("{}/sub", work)).unwrap();
                 }
                 std::fs::create_dir_all(format!("{}/out", work)).unwrap();
+                if mode == "dir2" {
+                    std::fs::create_dir_all(format!("{}/sub/deep", work)).unwrap();
+                }
                 if mode.starts_with("dir") {
                     // bystanders the directory walk must ignore
                     std::fs::write(format!("{}/sub/notes.txt", work), "not a grammar").unwrap();
